@@ -275,11 +275,12 @@ def load_findings():
 
 
 def write_replay(prop: str, payload: dict) -> Path:
-    REPLAYS.mkdir(parents=True, exist_ok=True)
+    rdir = REPLAYS if str(REPO) == "/repo" else BUILD / "evidence-alt" / "replays"  # mutant runs keep their replays apart
+    rdir.mkdir(parents=True, exist_ok=True)
     payload.setdefault("repo", str(REPO))
     blob = json.dumps(payload, sort_keys=True, default=str)
     h = hashlib.sha256(blob.encode()).hexdigest()[:12]
-    path = REPLAYS / f"{prop}-{h}.json"
+    path = rdir / f"{prop}-{h}.json"
     path.write_text(json.dumps(payload, indent=1, sort_keys=True, default=str))
     return path
 
